@@ -208,6 +208,24 @@ func c18Gen(r *rand.Rand) c18Case {
 		for i, m := 0, r.Intn(3); i < m; i++ {
 			t.Stages = append(t.Stages, genStage(r, pick(r, []string{"lf", "logfmt", "lblf", "drop", "lblfmt", "json"})))
 		}
+		if r.Intn(6) == 0 {
+			// several labels asking for one path (held in a map by the extractor): every one of them must get
+			// the value on every run, for scalars and for nested values alike
+			path := pick(r, [][]PathSel{{{Key: "nested"}}, {{Key: "a"}}, {{Key: "lvl"}}, {{Key: "nested"}, {Key: "k"}}})
+			st := LStage{Kind: "json"}
+			for _, l := range distinctStrings(r, []string{"p", "qq", "zz", "a"}, 2+r.Intn(2)) {
+				st.Paths = append(st.Paths, LPathExpr{Label: l, Path: path})
+			}
+			t.Stages = append([]LStage{st}, t.Stages...)
+			if len(t.Stages) > 2 {
+				t.Stages = t.Stages[:2]
+			}
+			for ci := range t.Ctrs {
+				for ri := range t.Ctrs[ci].Recs {
+					t.Ctrs[ci].Recs[ri].Body = pick(r, []string{`{"a":"x","nested":{"k":1}}`, `{"nested":[1,2],"lvl":"warn"}`, `{"a":"y","lvl":"info","nested":{"k":"v"}}`})
+				}
+			}
+		}
 		fixAmbiguity(t.Stages)
 		if r.Intn(3) == 0 {
 			t.Limit = 1 + r.Intn(3)
